@@ -13,9 +13,11 @@ for d in sorted(glob.glob(os.path.join(H, "seeded", "*"))):
     needs = re.sub(r"\s+", " ", str(m.get("needs", "")))[:200]
     c = m.get("check", {})
     sig = "; ".join(s[:80] for s in c.get("signatures", [])[:2])
-    hist = m.get("history", "")
+    hist = m.get("history", "") or ""
+    if m.get("rebased"):
+        hist = (hist + "; " if hist else "") + "re-anchored: " + re.sub(r"\s+", " ", str(m["rebased"]))[:160]
     rows.append("| %s | %s | %s | %s | %s |" % (name, summ.replace("|", "\\|"), needs.replace("|", "\\|"),
-                ("**caught** (%s)" % c.get("tier", "quick")) if c.get("detected") else ("obsolete (no longer breaks the property, see history)" if m.get("obsolete") else "MISSED"), (sig.replace("|", "\\|") + (" — " + hist if hist else ""))))
+                ("obsolete (a later repair made the mistake impossible or harmless, see history)" if m.get("obsolete") else (("**caught** (%s)" % c.get("tier", "quick")) if c.get("detected") else "MISSED")), (sig.replace("|", "\\|") + (" — " + hist if hist else ""))))
 table = "| seed | change | needs | ./check | first signature(s) / history |\n|---|---|---|---|---|\n" + "\n".join(rows)
 p = os.path.join(H, "DESIGN.md")
 s = open(p).read()
